@@ -130,6 +130,18 @@ def _replay_3d(seed):
         W = W / np.linalg.norm(W, axis=1, keepdims=True)
         if np.all(W @ np.ones(3) > 0.2) and abs(np.linalg.det(W)) > 0.2:
             cones.append(("rand%d" % k, W))
+    from scipy.optimize import linprog
+    tries = 0
+    while len(cones) < 30 and tries < 400:     # general position: facet normals with mixed-sign mutual inner products
+        tries += 1
+        K = int(rs.choice([3, 3, 4]))
+        W = rs.randn(K, 3)
+        W = W / np.linalg.norm(W, axis=1, keepdims=True)
+        # interior: maximise t subject to W x >= t, |x|_inf <= 1
+        res = linprog(c=[0, 0, 0, -1], A_ub=np.hstack([-W, np.ones((K, 1))]), b_ub=np.zeros(K), bounds=[(-1, 1)] * 3 + [(0, 1)])
+        if res.status == 0 and res.x[3] > 0.15 and np.linalg.matrix_rank(W) == 3:
+            cones.append(("gen%d" % tries, W))
+    cones.append(("mixed-sign", np.array([[.48, .48, .73], [.32, -.59, -.74], [-.37, .64, -.68]]) / np.linalg.norm(np.array([[.48, .48, .73], [.32, -.59, -.74], [-.37, .64, -.68]]), axis=1, keepdims=True)))
     for name, W in cones:
         cone = OrderingCone(W)
         exp = np.array([R.alpha_float(W, n) for n in range(len(W))])
